@@ -109,10 +109,12 @@ fn verify_match_rule(
             };
 
             for src_path in src_artifact_queue {
-                let src_base_path = src_path
-                    .value()
-                    .strip_prefix(&src_prefix)
-                    .unwrap_or_else(|| src_path.value());
+                // artifacts outside the source prefix are not subject to this rule
+                let src_base_path =
+                    match src_path.value().strip_prefix(&src_prefix) {
+                        Some(src_base_path) => src_base_path,
+                        None => continue,
+                    };
                 let src_base_path =
                     VirtualTargetPath::new(src_base_path.to_string())
                         .expect("Unexpected VirtualTargetPath creation failed");
